@@ -14,4 +14,24 @@ structure Inv2X (j : Job) (s : Sys) : Prop where
   /-- a transmit announcement is about a dataset that has been produced -/
   evT_produced : ∀ h ds, Event.pubT h ds ∈ s.allEv → s.env.produced ds = true
 
+theorem i2b_snd_inj : ∀ (l : List (Worker × Task)) (a b : Worker) (t : Task),
+    (l.map (·.2)).Nodup → (a, t) ∈ l → (b, t) ∈ l → a = b
+  | [], _, _, _, _, ha, _ => by cases ha
+  | x :: l, a, b, t, hnd, ha, hb => by
+    simp only [List.map_cons, List.nodup_cons] at hnd
+    rcases List.mem_cons.mp ha with ha' | ha' <;> rcases List.mem_cons.mp hb with hb' | hb'
+    · rw [← hb'] at ha'; exact (Prod.mk.inj ha').1
+    · subst ha'
+      have : (b, t).2 ∈ l.map (·.2) := List.mem_map.mpr ⟨(b, t), hb', rfl⟩
+      exact absurd this hnd.1
+    · subst hb'
+      have : (a, t).2 ∈ l.map (·.2) := List.mem_map.mpr ⟨(a, t), ha', rfl⟩
+      exact absurd this hnd.1
+    · exact i2b_snd_inj l a b t hnd.2 ha' hb'
+
+/-- a task is in flight on at most one worker -/
+theorem Inv2X.uniq {j : Job} {s : Sys} (h : Inv2X j s) (w w' : Worker) (t : Task)
+    (hf : s.inFlight w t) (hf' : s.inFlight w' t) : w = w' :=
+  i2b_snd_inj _ w w' t h.flight_unique (List.mem_append.mpr hf) (List.mem_append.mpr hf')
+
 end EkwVerif.Ctrl
